@@ -340,9 +340,52 @@ def odf_content(kind: str, token: str) -> bytes:
 MANIFEST_NS = "urn:oasis:names:tc:opendocument:xmlns:manifest:1.0"
 
 
-def odf_manifest(kind: str, entries, prefix="manifest", enc_for=(), ns=MANIFEST_NS, extra_attr="") -> bytes:
+# the shapes an <encryption-data> element takes in the wild (ODF 1.0/1.1 Blowfish, ODF 1.2 AES-256 as LibreOffice writes it,
+# ODF 1.3 OpenPGP key transport, and the bare element a minimal writer may emit).  Encrypted is encrypted whatever the
+# algorithm / checksum / key-derivation attributes say: the detector must not depend on them.
+ODF_ENC_STYLES = ("blowfish", "aes256", "aes256-argon", "pgp", "bare", "no-checksum", "unknown-algorithm")
+
+
+def _odf_encryption_data(p: str, ap: str, style: str) -> str:
+    if style == "blowfish":
+        return (f'<{p}encryption-data {ap}checksum-type="SHA1/1K" {ap}checksum="AAAA">'
+                f'<{p}algorithm {ap}algorithm-name="Blowfish CFB" {ap}initialisation-vector="AAAA"/>'
+                f'<{p}key-derivation {ap}key-derivation-name="PBKDF2" {ap}iteration-count="1024" {ap}salt="AAAA"/>'
+                f'</{p}encryption-data>')
+    if style == "aes256":
+        return (f'<{p}encryption-data {ap}checksum-type="urn:oasis:names:tc:opendocument:xmlns:manifest:1.0#sha256-1k" {ap}checksum="AAAA">'
+                f'<{p}algorithm {ap}algorithm-name="http://www.w3.org/2001/04/xmlenc#aes256-cbc" {ap}initialisation-vector="AAAA"/>'
+                f'<{p}key-derivation {ap}key-derivation-name="PBKDF2" {ap}key-size="32" {ap}iteration-count="100000" {ap}salt="AAAA"/>'
+                f'<{p}start-key-generation {ap}start-key-generation-name="http://www.w3.org/2000/09/xmldsig#sha256" {ap}key-size="32"/>'
+                f'</{p}encryption-data>')
+    if style == "aes256-argon":
+        return (f'<{p}encryption-data>'
+                f'<{p}algorithm {ap}algorithm-name="http://www.w3.org/2009/xmlenc11#aes256-gcm" {ap}initialisation-vector="AAAA"/>'
+                f'<{p}key-derivation {ap}key-derivation-name="urn:org:documentfoundation:names:experimental:office:manifest:argon2id" {ap}salt="AAAA"/>'
+                f'<{p}start-key-generation {ap}start-key-generation-name="http://www.w3.org/2001/04/xmlenc#sha256" {ap}key-size="32"/>'
+                f'</{p}encryption-data>')
+    if style == "pgp":
+        return (f'<{p}encryption-data {ap}checksum-type="urn:oasis:names:tc:opendocument:xmlns:manifest:1.0#sha256-1k" {ap}checksum="AAAA">'
+                f'<{p}algorithm {ap}algorithm-name="http://www.w3.org/2001/04/xmlenc#aes256-cbc" {ap}initialisation-vector="AAAA"/>'
+                f'<{p}key-derivation {ap}key-derivation-name="PGP"/>'
+                f'</{p}encryption-data>')
+    if style == "bare":
+        return f'<{p}encryption-data/>'
+    if style == "no-checksum":
+        return (f'<{p}encryption-data>'
+                f'<{p}algorithm {ap}algorithm-name="Blowfish CFB" {ap}initialisation-vector="AAAA"/>'
+                f'</{p}encryption-data>')
+    if style == "unknown-algorithm":
+        return (f'<{p}encryption-data {ap}checksum-type="SHA1" {ap}checksum="AAAA">'
+                f'<{p}algorithm {ap}algorithm-name="urn:example:vendor-cipher" {ap}initialisation-vector=""/>'
+                f'<{p}key-derivation {ap}key-derivation-name="none"/>'
+                f'</{p}encryption-data>')
+    raise ValueError(style)
+
+
+def odf_manifest(kind: str, entries, prefix="manifest", enc_for=(), ns=MANIFEST_NS, extra_attr="", enc_style="blowfish") -> bytes:
     """entries: member names; enc_for: names that get a <encryption-data> child (real ODF
-    encryption shape).  prefix: namespace prefix used ('' = default namespace)."""
+    encryption shape, spelled as `enc_style` says).  prefix: namespace prefix used ('' = default namespace)."""
     p = prefix + ":" if prefix else ""
     decl = f'xmlns:{prefix}="{ns}"' if prefix else f'xmlns="{ns}"'
     ap = p if prefix else ""   # unprefixed attributes in the default-namespace spelling
@@ -352,10 +395,7 @@ def odf_manifest(kind: str, entries, prefix="manifest", enc_for=(), ns=MANIFEST_
         if n in enc_for:
             rows.append(
                 f'<{p}file-entry {ap}full-path="{esc}" {ap}media-type="text/xml" {ap}size="100">'
-                f'<{p}encryption-data {ap}checksum-type="SHA1/1K" {ap}checksum="AAAA">'
-                f'<{p}algorithm {ap}algorithm-name="Blowfish CFB" {ap}initialisation-vector="AAAA"/>'
-                f'<{p}key-derivation {ap}key-derivation-name="PBKDF2" {ap}iteration-count="1024" {ap}salt="AAAA"/>'
-                f'</{p}encryption-data></{p}file-entry>')
+                + _odf_encryption_data(p, ap, enc_style) + f'</{p}file-entry>')
         else:
             rows.append(f'<{p}file-entry {ap}full-path="{esc}" {ap}media-type="text/xml"/>')
     return (f'<?xml version="1.0" encoding="UTF-8"?><{p}manifest {decl} {ap}version="1.2">' + "".join(rows) + f"</{p}manifest>").encode()
@@ -400,7 +440,81 @@ def epub_encryption_xml(n_data: int, ns=XMLENC, depth=0, local="EncryptedData", 
     return f'<?xml version="1.0"?><encryption xmlns="urn:oasis:names:tc:opendocument:xmlns:container">{inner}</encryption>'.encode()
 
 
+# algorithms an EncryptionMethod of an EPUB's encryption.xml names in the wild.  "real": the resource is enciphered with a key
+# the reader does not have (DRM: Adobe ADEPT / Readium LCP / Apple FairPlay / Kobo use xmlenc AES); "font": IDPF / Adobe font
+# obfuscation (the font file is mangled with a key derived from the package identifier — not DRM, the text stays readable).
+EPUB_ALG_REAL = ["http://www.w3.org/2001/04/xmlenc#aes128-cbc", "http://www.w3.org/2001/04/xmlenc#aes256-cbc",
+                 "http://www.w3.org/2009/xmlenc11#aes128-gcm", "http://www.w3.org/2001/04/xmlenc#tripledes-cbc",
+                 "http://www.w3.org/2001/04/xmlenc#rsa-oaep-mgf1p", "urn:example:vendor-drm#scheme-1", None]
+EPUB_ALG_FONT = ["http://www.idpf.org/2008/embedding", "http://ns.adobe.com/pdf/enc#RC"]
+
+
+def epub_encryption_entries(entries, prefix="enc", container_prefix="") -> bytes:
+    """META-INF/encryption.xml (OCF §2.5.4) with one EncryptedData per entry, in the order given.
+    entry = {"alg": URI | None (no EncryptionMethod child), "uri": resource, "keyinfo": None | "name" | "key" | "retrieval",
+             "compression": bool, "wrap": bool (EncryptedData nested one level down)}"""
+    p = prefix + ":" if prefix else ""
+    out = []
+    for i, e in enumerate(entries):
+        one = f'<{p}EncryptedData Id="ED{i}">'
+        if e.get("alg") is not None:
+            one += f'<{p}EncryptionMethod Algorithm="{e["alg"]}"/>'
+        ki = e.get("keyinfo")
+        if ki == "name":
+            one += '<ds:KeyInfo><ds:KeyName>urn:uuid:0a0b0c0d-content-key</ds:KeyName></ds:KeyInfo>'
+        elif ki == "retrieval":
+            one += '<ds:KeyInfo><ds:RetrievalMethod URI="license.lcpl#/encryption/content_key" Type="http://readium.org/2014/01/lcp#EncryptedContentKey"/></ds:KeyInfo>'
+        elif ki == "key":
+            one += (f'<ds:KeyInfo><{p}EncryptedKey><{p}EncryptionMethod Algorithm="http://www.w3.org/2001/04/xmlenc#rsa-1_5"/>'
+                    f'<{p}CipherData><{p}CipherValue>AAAA</{p}CipherValue></{p}CipherData></{p}EncryptedKey></ds:KeyInfo>')
+        one += f'<{p}CipherData><{p}CipherReference URI="{e.get("uri", "OEBPS/c1.xhtml")}"/></{p}CipherData>'
+        if e.get("compression"):
+            one += (f'<{p}EncryptionProperties><{p}EncryptionProperty xmlns:ns="http://www.idpf.org/2016/encryption#compression">'
+                    f'<ns:Compression Method="8" OriginalLength="123"/></{p}EncryptionProperty></{p}EncryptionProperties>')
+        one += f'</{p}EncryptedData>'
+        if e.get("wrap"):
+            one = f"<wrap>{one}</wrap>"
+        out.append(one)
+    cp = container_prefix + ":" if container_prefix else ""
+    cdecl = (f'xmlns:{container_prefix}' if container_prefix else "xmlns") + '="urn:oasis:names:tc:opendocument:xmlns:container"'
+    edecl = (f'xmlns:{prefix}' if prefix else "xmlns") + f'="{XMLENC}"'
+    if not prefix and not container_prefix:
+        raise ValueError("one of the two namespaces needs a prefix")
+    return (f'<?xml version="1.0" encoding="UTF-8"?><{cp}encryption {cdecl} {edecl} xmlns:ds="http://www.w3.org/2000/09/xmldsig#">'
+            + "".join(out) + f'</{cp}encryption>').encode()
+
+
 # ----------------------------------------------------------------------------- PDF
+def pdf_plain_lengths(lengths, doc_id: bytes | None = None, tail=b"\n", label="L") -> bytes:
+    """one page per requested content-stream length: the page's content stream is stored WITHOUT a filter and is exactly
+    `n` bytes long (a text-showing program padded with blanks and closed by `tail`; for n too small for a text operator
+    the stream is `n` bytes of harmless operators / empty).  Decryption glue that mishandles some plaintext length
+    (block-size multiples: a full padding block; less than one block; nothing at all) changes the bytes of such a stream,
+    and with them the text of the page — a Flate stream would hide trailing garbage (zlib ignores it)."""
+    from pypdf import PdfWriter
+    from pypdf.generic import DictionaryObject, NameObject, StreamObject
+
+    w = PdfWriter()
+    _set_doc_id(w, doc_id)
+    font = w._add_object(DictionaryObject({NameObject("/Type"): NameObject("/Font"), NameObject("/Subtype"): NameObject("/Type1"),
+                                           NameObject("/BaseFont"): NameObject("/Helvetica")}))
+    for n in lengths:
+        page = w.add_blank_page(width=300, height=200)
+        page[NameObject("/Resources")] = DictionaryObject({NameObject("/Font"): DictionaryObject({NameObject("/F1"): font})})
+        head = f"BT /F1 12 Tf 20 100 Td (TOKEN {label}{n}) Tj ET".encode("latin-1")
+        if n >= len(head) + len(tail):
+            body = head + b" " * (n - len(head) - len(tail)) + tail
+        else:
+            body = (b"q Q " * 16)[:n].rstrip(b"q").ljust(n, b" ") if n else b""
+        assert len(body) == n
+        s = StreamObject()
+        s._data = body
+        page[NameObject("/Contents")] = w._add_object(s)
+    bio = io.BytesIO()
+    w.write(bio)
+    return bio.getvalue()
+
+
 def _set_doc_id(w, doc_id):
     """permanent file identifier (first element of the trailer /ID, PDF 32000 §14.4): tools that encrypt / re-save a
     document keep it, so all variants of one original share it"""
